@@ -1,7 +1,8 @@
 # C04 — a key is used only for callers entitled to it
 import ipaddress, json, os, collections
 
-FP = ["internal/authmodel:", "internal/realip:", "config:Config.GetKey", "config:ClientConfig.Match", "server:Server.serve", "server:Server.Handler"]
+FP = ["internal/authmodel:", "internal/realip:", "config:Config.GetKey", "config:ClientConfig.Match", "config:KeyConfig.Name", "server:Server.serve", "server:Server.Handler",
+      "server:Server.getKeyInfo", "server:Server.openTokens", "internal/signinit:", "token/filetoken:", "token/tokencache:Cache.GetKey", "token/worker:", "cmdline/workercmd:handler.handle"]
 CERT_FP = {"leaf1": 101, "leaf2": 102, "leafA": 103, "leafAnoeku": 104, "leafAexp": 105, "leafB": 106}
 CERT_CA = {"leafA": 1}            # only leafA verifies under the configured CA (EKU ok, not expired)
 ROLE = {"r1": 1, "r2": 2, "r3": 3}
@@ -312,6 +313,161 @@ def seq_compare_model(ctx, certs, seqs, counters):
                     ctx.violation("C04:correspondence:history", "request %d of a sequence (%s, %s %s chain %s via %s): %s" % (i + 1, cs["cfg"], rq["ep"], rq["key"], rq["chain"], rq["via"], why),
                                   dict(seq_replay_obj(certs, cs, i), broken="correspondence C04.Run.run_history"), False)
 
+# ---------------------------------------------------------------------------------------------------------------------
+# key names end to end (c04names): which entry's key signed / whose certificate was disclosed
+NROLE = {"ra": 11, "rb": 12, "rc": 13, "rd": 14}
+NCALLER = {"ua": 201, "ub": 202, "uc": 203, "ud": 204, "ur": 205, "ux": 206}
+
+def names_denotes(keys, n):
+    """property text: the key a name resolves to, following ONE alias (whatever the entry reached contains)"""
+    k = keys.get(n)
+    if k is None:
+        return None
+    if k["alias"]:
+        return keys.get(k["alias"])
+    return k
+
+def names_alias_of_alias(keys, n):
+    """the entry the alias names is itself an alias: the property text allows to treat this as a malformed entry (refuse,
+    relic since 1867fd2) or to use the entry reached after the one step — never any other entry"""
+    k = keys.get(n)
+    t = keys.get(k["alias"]) if k is not None and k["alias"] else None
+    return t is not None and bool(t["alias"])
+
+def names_entitled(k, roles):
+    return k is not None and k["token"] != "" and bool(set(roles) & set(k["roles"] or []))
+
+def names_judge(ctx, cases, counters):
+    """MODEL-FREE oracle, from the property text only: a key is used (signature made with its private key, certificate
+    disclosed) only for a recognised caller who shares a role with the entry the requested name resolves to following one
+    alias — and the key used is the key of THAT entry; every other request is refused 401/403; listings are exact."""
+    reported = set()
+    def report(key, detail, cs, rq, found=True):
+        counters["names_spec_mismatches"] += 1
+        if key not in reported:
+            reported.add(key)
+            ctx.violation(key, detail, {"namecases": [dict(cs, reqs=[{"ep": rq["ep"], "key": rq["key"], "caller": rq["caller"]}])], "observed": rq,
+                                        "how": "bin/check C04 --replay <this file> re-runs the request on the current tree (drv-c04 c04names replay); key material is minted per run, entries keep their pair numbers"}, found)
+    for cs in cases:
+        keys = {k["name"]: k for k in cs["keys"]}
+        by_pair = {}
+        for k in cs["keys"]:
+            if k["pair"]:
+                by_pair.setdefault(k["pair"], []).append(k["name"])
+        clients = {c["cert"]: c["roles"] or [] for c in cs["clients"]}
+        sign_status = {(r["caller"], r["key"]): r["status"] for r in cs["reqs"] if r["ep"] == "sign"}
+        for rq in cs["reqs"]:
+            counters["names_requests"] += 1
+            roles = clients.get(rq["caller"])
+            what = "%s %s as %s (roles %s)" % (rq["ep"], rq["key"], rq["caller"], roles)
+            if roles is None:
+                if rq["status"] != 401:
+                    report("C04:spec:names:unrecognised-served", "%s: expected 401, observed %s" % (what, rq["status"]), cs, rq)
+                continue
+            if rq["ep"] == "list":
+                # names whose alias names another alias are listed exactly when a signing request for them is not refused
+                cand = [n for n, k in keys.items() if not k["hide"] and names_entitled(names_denotes(keys, n), roles) and not names_denotes(keys, n)["hide"]]
+                exp = sorted(n for n in cand if not names_alias_of_alias(keys, n) or sign_status.get((rq["caller"], n), 403) != 403)
+                if rq["status"] != 200 or sorted(rq["listing"] or []) != exp:
+                    report("C04:spec:names:listing", "%s: expected %s, observed %s %s" % (what, exp, rq["status"], rq["listing"]), cs, rq)
+                continue
+            target = names_denotes(keys, rq["key"])
+            if names_alias_of_alias(keys, rq["key"]) and rq["status"] == 403:
+                counters["names_alias_of_alias_refused"] += 1
+                continue
+            ok = names_entitled(target, roles)
+            via_worker = target is not None and target["token"] in (cs["workers"] or [])
+            pre = "C04:spec:worker-" if via_worker else "C04:spec:"
+            chain = []
+            k, seen = keys.get(rq["key"]), 0
+            visited = set()
+            while k is not None and seen < 6 and k["name"] not in visited:
+                visited.add(k["name"])
+                chain.append("%s(roles %s%s)" % (k["name"], k["roles"] or [], ", own key" if k["pair"] else ""))
+                if k["alias"] and k["alias"] in visited:
+                    chain.append(k["alias"] + " (cycle)")
+                k, seen = (keys.get(k["alias"]) if k["alias"] else None), seen + 1
+            if not ok:
+                if rq["status"] != 403:
+                    counters["names_unentitled_not_403"] += 1
+                    used = rq["signer"] or rq["disclosed"]
+                    report(pre + ("key-used-unentitled" if rq["status"] == 200 else "names:refusal"),
+                           "%s, alias path %s: the caller is not entitled to %s; expected 403, observed %s%s" %
+                           (what, " -> ".join(chain), target["name"] if target else "anything (name does not resolve)", rq["status"],
+                            " using the key of %s" % by_pair.get(used) if used else ""), cs, rq)
+                continue
+            counters["names_entitled"] += 1
+            if rq["status"] == 200 and rq["ep"] == "sign":
+                owners = by_pair.get(rq["signer"], [])
+                if owners != [target["name"]]:
+                    bad = keys.get(owners[0]) if owners else None
+                    report("C04:spec:worker-signs-with-other-entry" if via_worker else "C04:spec:sign-uses-other-entry",
+                           "%s, alias path %s: the request is authorised against entry %s (one alias), but the returned signature verifies under the certificate of pair %s = the key of entry %s (roles %s; the caller %s entitled to it%s); audit record names %s; %s" %
+                           (what, " -> ".join(chain), target["name"], rq["signer"], owners, bad["roles"] if bad else "?",
+                            "IS" if bad and names_entitled(bad, roles) else "is NOT", "" if not bad else ", asking for it by name gives %s" % ("200" if names_entitled(names_denotes(keys, bad["name"]), roles) else "403"),
+                            rq["audit"], rq.get("verify_err") or "signature verified"), cs, rq)
+                elif (rq["certs"] or []) != [rq["signer"]]:
+                    report(pre + "sign-attaches-other-certificate", "%s: signed with pair %s, certificates found in the response: %s" % (what, rq["signer"], rq["certs"]), cs, rq)
+                else:
+                    counters["names_signed_with_checked_entry"] += 1
+            elif rq["status"] == 200 and rq["ep"] == "getkey" and rq["disclosed"]:
+                owners = [k["name"] for k in cs["keys"] if (k["cert"] or (k["pair"] if k["p12"] else 0)) == rq["disclosed"]]
+                if owners != [target["name"]]:
+                    bad = keys.get(owners[0]) if owners else None
+                    report(pre + "keys-discloses-other-entry",
+                           "%s, alias path %s: the request is authorised against entry %s (one alias), the certificate returned is the one of pair %s = entry %s (roles %s; the caller %s entitled to it)" %
+                           (what, " -> ".join(chain), target["name"], rq["disclosed"], owners, bad["roles"] if bad else "?", "IS" if bad and names_entitled(bad, roles) else "is NOT"), cs, rq)
+                else:
+                    counters["names_disclosed_checked_entry"] += 1
+            elif rq["status"] in (401, 403):
+                report(pre + "names:entitled-refused", "%s, alias path %s: the caller shares a role with %s, observed %s" % (what, " -> ".join(chain), target["name"], rq["status"]), cs, rq)
+            else:
+                counters["names_entitled_failed_%s" % rq["status"]] += 1   # incomplete material, dangling second hop ... (not a refusal, no key used)
+
+def names_model_vals(cases):
+    vals, metas = [], []
+    for cs in cases:
+        nm = Names()
+        kvals = [[nm.id(k["name"]), nm.id(k["token"]), nm.id(k["alias"]), [NROLE[r] for r in (k["roles"] or [])], k["hide"]] for k in cs["keys"]]
+        cvals = [[NCALLER[c["cert"]], 0, [NROLE[r] for r in (c["roles"] or [])]] for c in cs["clients"]]
+        tvals = [nm.id(t) for t in cs["tokens"]]
+        mvals = [[nm.id(k["name"]), k["pair"], k["cert"], k["pair"] if k["p12"] else 0] for k in cs["keys"] if k["pair"] or k["cert"]]
+        wvals = [nm.id(t) for t in (cs["workers"] or [])]
+        for rq in cs["reqs"]:
+            ep = {"sign": 0, "getkey": 1, "list": 2}[rq["ep"]]
+            vals.append([2, kvals, cvals, tvals, mvals, wvals,
+                         [ep, nm.id(rq["key"]), True, True, True, True, nm.id("203.0.113.9"), False, [], [[NCALLER[rq["caller"]], 0]], []]])
+            metas.append((cs, rq, nm))
+    return vals, metas
+
+def names_compare_model(ctx, cases, counters):
+    vals, metas = names_model_vals(cases)
+    res = ctx.run_model(vals)
+    shown = 0
+    for (cs, rq, nm), m in zip(metas, res):
+        kind, a, b, listing, ip, proxied, fk, f1, f2, f3, f4 = m
+        rev = {v: k for k, v in nm.ids.items()}
+        got = {"status": rq["status"]}
+        if kind == 0:
+            mo = {"status": a}
+        elif kind == 2:
+            mo = {"status": 200, "listing": sorted(rev.get(x, "?") for x in listing)}
+            got["listing"] = sorted(rq["listing"] or [])
+        elif fk == 1:
+            mo = {"status": 400 if f1 == 6 else 500}     # sigerrors.ErrNoCertificate is a 400, every other failure behind the token a 500
+        elif fk == 2:
+            mo = {"status": 200, "signer": f2, "certs": [f3], "audit": rev.get(f4, "?")}
+            got.update(signer=rq["signer"], certs=rq["certs"] or [], audit=rq["audit"])
+        else:
+            mo = {"status": 200, "disclosed": f2}
+            got["disclosed"] = rq["disclosed"]
+        if mo != got:
+            counters["names_model_mismatches"] += 1
+            shown += 1
+            if shown <= 2 and not any(v[2] for v in ctx.violations):
+                ctx.violation("C04:correspondence:names", "%s %s as %s: model %s vs implementation %s (%s)" % (rq["ep"], rq["key"], rq["caller"], mo, got, rq.get("body") or rq.get("verify_err") or ""),
+                              {"namecases": [dict(cs, reqs=[{"ep": rq["ep"], "key": rq["key"], "caller": rq["caller"]}])], "broken": "correspondence C04.Run.run_names"}, False)
+
 def run(ctx, replay=None):
     st = ctx.prepare(["C04_gen"], ["C04"], "C04.Run")
     if not st["harness_ok"]:
@@ -326,9 +482,15 @@ def run(ctx, replay=None):
                 seq_certs.update({c["name"]: c for c in o["certs"]})
             else:
                 seqs.append(o)
+    namecases = []
     if replay:
         rp = json.load(open(replay))
         cases, ipcases = rp.get("cases", []), rp.get("ipcases", [])
+        if rp.get("namecases"):   # re-executed on the current tree with fresh key material
+            rc, out, err = ctx.drv(["c04names", "replay", os.path.abspath(replay)], timeout=300)
+            if rc != 0:
+                ctx.violation("C04:driver-crash", "names replay failed: " + err[-600:], {"stderr": err[-3000:]}, False)
+            namecases = [json.loads(l) for l in out.splitlines() if l.strip()]
         if rp.get("seqs"):   # sequences are re-executed on the current tree with the recorded certificates
             rc, out, err = ctx.drv(["c04seq", "replay", os.path.abspath(replay)], timeout=300)
             if rc != 0:
@@ -345,6 +507,10 @@ def run(ctx, replay=None):
         cases = [json.loads(l) for l in out.splitlines() if l.strip()]
         rc, out, err = ctx.drv(["c04ip"], timeout=300)
         ipcases = [json.loads(l) for l in out.splitlines() if l.strip()]
+        rc, out, err = ctx.drv(["c04names"], timeout=600)
+        if rc != 0:
+            ctx.violation("C04:driver-crash", "names driver failed: " + err[-600:], {"stderr": err[-3000:]}, False)
+        namecases = [json.loads(l) for l in out.splitlines() if l.strip()]
     n_eval, n_spec, n_corr = 0, 0, 0
     distinct = set()
     vals, meta = [], []
@@ -393,6 +559,16 @@ def run(ctx, replay=None):
     seq_judge(ctx, seq_certs, seqs, counters)
     if st["model_ok"] and seqs:
         seq_compare_model(ctx, seq_certs, seqs, counters)
+    names_judge(ctx, namecases, counters)
+    if st["model_ok"] and namecases:
+        names_compare_model(ctx, namecases, counters)
+    n_eval += counters["names_requests"]
+    n_spec += counters["names_spec_mismatches"]
+    n_corr += counters["names_model_mismatches"]
+    for cs in namecases:
+        for rq in cs["reqs"]:
+            if rq["status"] != 401:
+                distinct.add(json.dumps(["names", cs["id"], rq["ep"], rq["key"], rq["caller"]]))
     n_eval += counters["seq_requests"]
     n_spec += counters["seq_spec_mismatches"]
     n_corr += counters["seq_model_mismatches"]
@@ -422,7 +598,9 @@ def run(ctx, replay=None):
                     ctx.violation("C04:correspondence-keyname", "model passes key %s to the token, implementation %s" % (rev.get(b), rq["touched"]),
                                   {"cases": [dict(cs, reqs=[rq])], "broken": "correspondence C04.Run"}, False)
     ctx.proof_verdict()
-    cov = ctx.proof_coverage(["srcgen: GetKey conditions, serveSign denial condition and call order, serveListKeys/serveGetKey conditions; Authenticate (certificate-required / try-CA conditions, first lookup key, leaf index, action table of the client loop, reads and writes of authenticator state with their key class), fingerprint() (digested field, hash, encoding), ClientConfig.Match (skip condition, leaf / intermediates split, VerifyOptions fields, result mapping), Handler() route table and middleware order, authmodel.Middleware call order; inventory of package variables, struct fields and non-local writes of internal/authmodel, internal/realip, server, config, internal/httperror (must equal the reviewed lists of C04/History.v)",
+    cov = ctx.proof_coverage(["srcgen (key names end to end): every call site between the HTTP views and the code that loads key material, as a term tracing the argument back to the request name, a parameter, a map key, an RPC field or a GetKey result — serveSign (GetKey argument, entry given to Allowed, entry whose Token selects the token, name given to signinit.Init), serveGetKey / getKeyInfo, serveListKeys (skip test, GetKey argument, entry given to Allowed, appended name), signinit.Init / InitKey (name passed on, entry whose certificate is loaded, entry returned), tokencache Cache (inner name, every index into the cache) / Metrics / RateLimited, filetoken and p11token GetKey (name resolved, entry whose material is loaded), WorkerToken.GetKey / workerKey.SignContext / workerKey.Config, workercmd handler (GetKey and Sign arms), KeyConfig.Name, Normalize (names = map keys, default token type), GetKey (map look-ups, entry returned, the alias-of-alias guard with its refusal), openTokens (which types go through the worker, wrapper stack), runWorker (wrapper stack)",
+                              "srcgen: GetKey conditions, serveSign denial condition and call order, serveListKeys/serveGetKey conditions; Authenticate (certificate-required / try-CA conditions, first lookup key, leaf index, action table of the client loop, reads and writes of authenticator state with their key class), fingerprint() (digested field, hash, encoding), ClientConfig.Match (skip condition, leaf / intermediates split, VerifyOptions fields, result mapping), Handler() route table and middleware order, authmodel.Middleware call order; inventory of package variables, struct fields and non-local writes of internal/authmodel, internal/realip, server, config, internal/httperror (must equal the reviewed lists of C04/History.v)",
+                              "harness drv-c04 c04names: real server.Handler() over REAL file tokens opened by the production server.openTokens (Metrics, Cache), every complete entry with its own EC key pair, key file and certificate; the signature in every /sign response is applied to the payload and verified (authenticode.VerifyPE) to find the entry whose private key signed, the certificate of /keys/{key} is matched against the entries' certificates, the audit record is read back; PKCS#11 stand-in: the real token/worker client (VerifNew) talking over loopback HTTP to the real cmdline/workercmd handler (VerifHandler) around a real file token with PKCS#12 bundles (certificate supplied by the token) — process spawning and the PKCS#11 module itself are not run",
                               "harness cmd/drv c04/c04ip/c04seq: real server.Handler() (realip, logging, recovery, auth middleware, views) with recording fake tokens, real X.509 material minted per run; realip.Middleware/PeerCertificates in isolation; request sequences on one long-lived Handler() and a mirrored long-lived authmodel.Authenticator, every request repeated on a brand-new server",
                               "x509 path validation (crypto/x509 Verify) is modelled by the specification function verify_spec (validity period, EKU on every certificate of the path, signature path through presented CA certificates; trust anchors assumed within validity) and compared with the real verifier on every sequence request; with several entries recognising one certificate Go's map iteration order decides, the harness avoids such configurations and the theorems speak about SOME recognising entry; OPA policy mode is not exercised by this check; TLS handshake not run"], FP)
     dist = {}
@@ -433,6 +611,9 @@ def run(ctx, replay=None):
     cov.update({"evaluations": n_eval, "distinct_nontrivial": len(distinct),
                 "rule": "single requests: configurations: 11 key shapes (plain, hidden, token-less, unserved token, alias ok/dangling/chain/to-hidden/to-token-less/with-own-token) with random role sets x 3 clients (2 by fingerprint, 1 by CA) ; requests: 17 identity scenarios (trusted/untrusted/unix peers, TLS chain kinds, X-Forwarded-For / Ssl-Client-Cert) x (12 names x {sign, key-info} + list + home + malformed parameters); distinct = requests not ending in 401",
                 "samples": [{"ep": r["ep"], "key": r["key"], "tls": r["tls"], "hdr": r["hdr"], "peer": r["peer"], "status": r["status"], "touched": r["touched"]} for r in (cases[0]["reqs"][:3] if cases else [])],
+                "names": {"configurations": len(namecases), "requests": counters["names_requests"],
+                          "rule": "per configuration ~33 entries (+6 random from the third configuration on): three-step chain through complete entries on one token, two-step chain whose middle entry is on another token, two-cycle / self-alias / alias into the cycle, complete entry with a dangling alias and an alias of it, chains ending at a hidden key and through a hidden middle entry, middle entries without key file / certificate / roles, the same chains on a token behind token/worker with token-supplied (PKCS#12) and file certificates, random alias graphs; link roles ra rb rc (first configuration exactly, later ones sometimes random sets); callers: one per role (entitled to exactly one link), one with a random role set, one unknown; every caller x every name (+ an undefined one) x {sign pe-coff, keys} + list_keys, then repeated signing under warm key caches",
+                          "samples": [{k: r[k] for k in ("ep", "key", "caller", "status", "signer", "disclosed", "audit")} for cs in namecases[:1] for r in cs["reqs"] if r["status"] == 200 and r["ep"] != "list"][:4]},
                 "status_distribution": dist, "spec_mismatches": n_spec, "model_mismatches": n_corr, "realip_cases": len(ipcases),
                 "sequences": {"count": len(seqs), "certificates": len(seq_certs), "configurations": sorted(set(cs["cfg"] for cs in seqs)),
                               "rule": "7 client configurations (CA only, CA + fingerprint clients, two CAs, fingerprint only, entry that is both fingerprint and CA, CA pool of two, none) x ordered pairs of 28 presented chains (same public key under CA-issued / self-signed / expired / not-yet-valid / foreign-CA / same-name-CA / wrong-EKU / any-EKU / no-EKU / other-CA certificates, through valid, serverAuth-only and expired intermediates, same subject with another key, issued by a non-CA, fingerprint keys under other certificates, the CA certificate itself, no certificate) as c1 c2 c2 c1 on one server, plus random histories of 8-16 requests mixing TLS and trusted-proxy-header delivery, plus one history whose certificates cross NotAfter / NotBefore while the server lives; every response compared with the property text and with a brand-new server",
